@@ -35,7 +35,14 @@ ASSUMPTIONS = [
     "model driver limits: bodies above 8 MB overflow its stack and decimal rendering of integers is quadratic, so the "
     "correspondence uses full bodies up to 1 MB (quick) / 8 MB (thorough) and INTEGER bodies up to 4 KB; longer declared "
     "lengths (to 2^24 and beyond) are driven with truncated bodies; the search runs the real code on a full 2^24 body",
-    "inputs are bytes objects (what the callers in keys.py / util.py pass after normalise_bytes: bytes or memoryview slices)",
+    "reader inputs are byte-format buffers: bytes, bytearray, memoryview of format 'B' (incl. slices, views of bytearray / "
+    "array('B')) — what keys.py / util.py pass after _compat.normalise_bytes; all of these are driven (streams `containers`). "
+    "Called DIRECTLY with other bytes-like objects the readers of der.py do not read the underlying bytes (observed on the "
+    "unchanged tree, outside the property's 'byte strings'): array.array objects fail the tag test `string[:1] != b'..'` "
+    "(UnexpectedDER on valid input), a signed view (cast 'b') yields negative items (02 02 00 80 refused as padded), views "
+    "with items wider than one byte are measured and indexed in items; the public entry points normalise first",
+    "encoders taking a byte string (octet string, sequence pieces, constructed value, bit string) are also driven with "
+    "bytearray, memoryview and array('B') arguments",
 ]
 
 BASE = [0x00, 0x01, 0x02, 0x7F, 0x80, 0x81, 0x82, 0xFF]
@@ -206,6 +213,24 @@ def ref_reader(name, conv, s):
 
 # ------------------------------------------------------------------------------------------------
 # the real code
+# byte-format containers of the same bytes: what the callers hand to the readers after _compat.normalise_bytes
+# (memoryview(x).cast("B")) or directly; the oracle and the model read the underlying bytes
+def _arrB(b):
+    from array import array
+    return array("B", b)
+
+
+CONTAINERS = [
+    ("bytearray", bytearray), ("memoryview", memoryview),
+    ("memoryview-slice", lambda b: memoryview(b"\xee" + b + b"\xdd\xcc")[1:1 + len(b)]),
+    ("memoryview(bytearray)", lambda b: memoryview(bytearray(b))),
+    ("memoryview(array-B)", lambda b: memoryview(_arrB(b))),
+    ("cast-B", lambda b: memoryview(b).cast("B")),
+]
+CONTAINER = dict(CONTAINERS)
+ENC_CONTAINERS = [("bytearray", bytearray), ("memoryview", memoryview), ("array-B", _arrB)]
+
+
 def call_reader(der, name, conv, data):
     if name == "remove_bitstring":
         if conv == "legacy":
@@ -602,6 +627,36 @@ def correspond(ctx):
         for data in exhaustive(name, depth):
             c.add(line(name, cv, data), lambda: show(name, cv, call_reader(der, name, cv, data)), tag)
         c.run()
+    c = Corr(ctx, "containers")
+    k = 0
+    for name, cv, depth in exh_plan(ctx):
+        for data in exhaustive(name, min(depth, 3)):
+            k += 1
+            cname, f = CONTAINERS[k % len(CONTAINERS)]
+            o = f(data)
+            c.add(line(name, cv, data), lambda: show(name, cv, call_reader(der, name, cv, o)), cname)
+    for cls, name, data in reader_inputs(ctx, True):
+        if len(data) > 4096:
+            continue
+        for cv in convs_of(name):
+            k += 1
+            cname, f = CONTAINERS[k % len(CONTAINERS)]
+            o = f(data)
+            c.add(line(name, cv, data), lambda: show(name, cv, call_reader(der, name, cv, o)), cname)
+    for body in body_values(ctx):
+        if len(body) > 4096:
+            continue
+        for cname, f in ENC_CONTAINERS:
+            o = f(body)
+            c.add("encode_octet_string " + hx(body), lambda: hx(der.encode_octet_string(o)), "enc-" + cname)
+            c.add("encode_sequence %s %s" % (hx(body), hx(body)), lambda: hx(der.encode_sequence(o, o)), "enc-" + cname)
+            c.add("encode_constructed 1 " + hx(body), lambda: hx(der.encode_constructed(1, o)), "enc-" + cname)
+    for d in bits_values(ctx):
+        for cname, f in ENC_CONTAINERS:
+            o = f(d)
+            c.add("encode_bitstring %s 0" % hx(d), lambda: hx(der.encode_bitstring(o, 0)), "enc-" + cname)
+            c.add("encode_bitstring %s none" % hx(d), lambda: hx(der.encode_bitstring(o, None)), "enc-" + cname)
+    c.run()
     c = Corr(ctx, "readers")
     for cls, name, data in reader_inputs(ctx, True):
         for cv in convs_of(name):
@@ -629,11 +684,11 @@ def short(v):
     return s if len(s) <= 600 else s[:300] + " ... " + s[-200:]
 
 
-def check_reader(der, name, conv, data):
-    """the property at one reader input; None if it holds, else {"observed", "expected"}"""
+def check_reader(der, name, conv, data, cont=None):
+    """the property at one reader input (handed over in the container `cont`); None if it holds, else {"observed", "expected"}"""
     exp = ref_reader(name, conv, data)
     try:
-        got = norm(name, conv, call_reader(der, name, conv, data))
+        got = norm(name, conv, call_reader(der, name, conv, CONTAINER[cont](data) if cont else data))
     except der.UnexpectedDER:
         if exp is not None:
             return {"observed": "UnexpectedDER", "expected": "canonical DER, value " + short(exp)}
@@ -808,6 +863,27 @@ def search(ctx):
         bad = check_encoder(der, kind, v)
         if bad and report({"op": "roundtrip", "kind": kind, "value": v}, bad):
             return done()
+    # the same readers with byte-format containers of the same bytes
+    k = 0
+    for name, cv, depth in exh_plan(ctx):
+        for data in exhaustive(name, min(depth, 3)):
+            k += 1
+            cname = CONTAINERS[k % len(CONTAINERS)][0]
+            n_eval += 1
+            bad = check_reader(der, name, cv, data, cname)
+            if bad and report(dict({"op": name, "conv": cv, "container": cname}, **enc_data(data)), bad):
+                return done()
+    for cls, name, data in reader_inputs(ctx, False):
+        if len(data) > 4096:
+            continue
+        for cv in convs_of(name):
+            k += 1
+            cname = CONTAINERS[k % len(CONTAINERS)][0]
+            n_eval += 1
+            ctx.hist("search", "container-" + cname)
+            bad = check_reader(der, name, cv, data, cname)
+            if bad and report(dict({"op": name, "conv": cv, "container": cname}, **enc_data(data)), bad):
+                return done()
     # structured, malformed, long
     for cls, name, data in reader_inputs(ctx, False):
         for cv in convs_of(name):
@@ -826,4 +902,4 @@ def replay(rec):
         return check_from_der(bytes.fromhex(i["data"])) is not None
     if i["op"] == "roundtrip":
         return check_encoder(der, i["kind"], i["value"]) is not None
-    return check_reader(der, i["op"], i.get("conv"), dec_data(i)) is not None
+    return check_reader(der, i["op"], i.get("conv"), dec_data(i), i.get("container")) is not None
